@@ -195,6 +195,15 @@ class Worker:
         addition/enqueueing. This is necessary to ensure that the idle status is
         always correct.
         """
+        self.mailbox_mutex = Lock()
+        """
+        A lock to serialize mailbox accesses of the worker's two threads.
+
+        A task registering as waiting on a mailbox (main thread) and a result
+        being deposited in it (incoming or main thread) each check what the
+        other has done and may wake the task. Both must be atomic, otherwise a
+        task is woken twice or never.
+        """
         # Send out every client emitted log message upstream
         old_factory = logging.getLogRecordFactory()
 
@@ -324,23 +333,25 @@ class Worker:
         assert result.return_address.worker_id == self._id
 
         mailbox_id = result.return_address.mailbox_index
-        if mailbox_id not in self._mailboxes:
-            # If the mailbox has been dropped due to a cancel, ignore result
-            return
+        with self.mailbox_mutex:
+            if mailbox_id not in self._mailboxes:
+                # If the mailbox has been dropped due to a cancel, ignore
+                return
 
-        box = self._mailboxes[mailbox_id]
-        box.deposit_result(result)
+            box = self._mailboxes[mailbox_id]
+            box.deposit_result(result)
 
-        if box.has_task_waiting:
-            assert box.dest_addr is not None
-            task = self._tasks[box.dest_addr]
+            if box.has_task_waiting:
+                assert box.dest_addr is not None
+                task = self._tasks[box.dest_addr]
 
-            if task.wake_on_next or box.ready:
-                # print(f'Worker {self._id} is waking task
-                # {task.return_address}, with {task.wake_on_next=},
-                # {box.ready=}')
-                self._ready_task_ids.put(box.dest_addr)  # Wake it
-                box.dest_addr = None  # Prevent double wake
+                if task.wake_on_next or box.ready:
+                    # print(f'Worker {self._id} is waking task
+                    # {task.return_address}, with {task.wake_on_next=},
+                    # {box.ready=}')
+                    dest_addr = box.dest_addr
+                    box.dest_addr = None  # Prevent double wake
+                    self._ready_task_ids.put(dest_addr)  # Wake it
 
     def _handle_cancel(self, addr: RuntimeAddress) -> None:
         """
@@ -477,27 +488,31 @@ class Worker:
         if not isinstance(future, RuntimeFuture):
             raise RuntimeError('Can only await on a BQSKit RuntimeFuture.')
 
-        if future.mailbox_id not in self._mailboxes:
-            raise RuntimeError('Cannot await on a canceled task.')
+        with self.mailbox_mutex:
+            if future.mailbox_id not in self._mailboxes:
+                raise RuntimeError('Cannot await on a canceled task.')
 
-        box = self._mailboxes[future.mailbox_id]
+            box = self._mailboxes[future.mailbox_id]
+            task.desired_box_id = future.mailbox_id
 
-        # Let the mailbox know this task is waiting
-        box.dest_addr = task.return_address
-        task.desired_box_id = future.mailbox_id
+            # if future._next_flag:
+            #     # Set from Worker.next, implies the task wants the next
+            #     # result
+            #     # if box.ready:
+            #     #     m = 'Cannot wait for next results on a complete task.'
+            #     #     raise RuntimeError(m)
+            #     task.wake_on_next = True
+            task.wake_on_next = future._next_flag
+            # print(f'Worker {self._id} is waiting on task
+            # {task.return_address}, with {task.wake_on_next=}')
 
-        # if future._next_flag:
-        #     # Set from Worker.next, implies the task wants the next result
-        #     # if box.ready:
-        #     #     m = 'Cannot wait for next results on a complete task.'
-        #     #     raise RuntimeError(m)
-        #     task.wake_on_next = True
-        task.wake_on_next = future._next_flag
-        # print(f'Worker {self._id} is waiting on task
-        # {task.return_address}, with {task.wake_on_next=}')
-
-        if box.ready:
-            self._ready_task_ids.put(task.return_address)
+            if box.ready:
+                # Wake it right away; it is not registered as waiting, so
+                # no result arriving later can wake it a second time.
+                self._ready_task_ids.put(task.return_address)
+            else:
+                # Let the mailbox know this task is waiting
+                box.dest_addr = task.return_address
 
     def _process_task_completion(self, task: RuntimeTask, result: Any) -> None:
         """Package and send out task result."""
@@ -536,16 +551,17 @@ class Worker:
         if task.desired_box_id is None:
             return None
 
-        box = self._mailboxes[task.desired_box_id]
+        with self.mailbox_mutex:
+            box = self._mailboxes[task.desired_box_id]
 
-        if task.wake_on_next:
-            fresh_results = box.get_new_results()
-            # assert len(fresh_results) > 0
-            return fresh_results
+            if task.wake_on_next:
+                fresh_results = box.get_new_results()
+                # assert len(fresh_results) > 0
+                return fresh_results
 
-        assert box.ready
-        task.owned_mailboxes.remove(task.desired_box_id)
-        return self._mailboxes.pop(task.desired_box_id).result
+            assert box.ready
+            task.owned_mailboxes.remove(task.desired_box_id)
+            return self._mailboxes.pop(task.desired_box_id).result
 
     def _get_new_mailbox_id(self) -> int:
         """Return a new unique mailbox id."""
